@@ -10,7 +10,7 @@ from ..fsim import compare
 PROPERTY = "C05"
 LEVEL = "exploration"
 TIMEOUT = 240
-BUDGET = {"quick": 150, "thorough": 1500}
+BUDGET = {"quick": 600, "thorough": 3600}
 RULE = ("Seeded random latch programs: both argument orders x {set/reset as 0/1 input signals, comparisons on one "
         "shared input (inlinable), comparisons on different inputs, named comparison results} x {disjoint, "
         "touching, overlapping thresholds} x v in {1, other constants incl. negative, a signal}, set/reset signal "
